@@ -75,7 +75,11 @@ def define(term):
 def pin(eq_term, op):
     """Concretise: constrain the path to the current model value of something; counted per operation."""
     CTX.pins[op] += 1
-    branch(eq_term, True, kind="pin")
+    # finite-domain pins (hash of a string / key lookups / list positions) enumerate exhaustively; numeric
+    # concretisations with an unbounded remainder are sampled (explorer caps the chain)
+    finite = op.startswith(("hash(", "list index", "dict key", "operand-kind"))
+    kind = "pin-finite" if finite else ("pin-str" if ("str" in op or "bytes" in op or "re." in op) else "pin")
+    branch(eq_term, True, kind=kind)
 
 
 class _Meta(type):
